@@ -1,9 +1,116 @@
 import HedVerif.Driver.Util
+import HedVerif.Model.SchemaIO
 open Lean
 namespace HedVerif.Driver.C05
-open HedVerif HedVerif.Driver
+open HedVerif HedVerif.Driver HedVerif.SchemaIO
 
-/-- requests `{"op":"c05.<name>", ...}` of property C05 (stub: none yet) -/
-def handle (_op : String) (_j : Json) : Option (Except String Json) := none
+def attrsJson (as : Attrs) : Json := jarr (as.map fun kv => jarr [jstr kv.1, jarr (kv.2.map jstr)])
+
+def attrsOf (j : Json) : Except String Attrs := do
+  (← asArr j).mapM fun kv => do
+    match ← asArr kv with
+    | [k, vs] => pure (← asStr k, ← (← asArr vs).mapM asStr)
+    | _ => .error "attribute must be [name,[values]]"
+
+def descOf (j : Json) (k : String) : Option Str :=
+  match j.getObjVal? k with
+  | .ok (Json.str s) => some s.toList
+  | _ => none
+
+def entryOf (j : Json) : Except String Entry := do
+  pure ⟨← getStr j "name", ← attrsOf (← getVal j "attrs"), descOf j "desc"⟩
+
+def entryJson (e : Entry) : Json :=
+  jobj [("name", jstr e.name), ("attrs", attrsJson e.attrs), ("desc", jopt jstr e.desc)]
+
+def werr : WErr → String
+  | .nowiki => "nowiki" | .noName => "noName" | .attrDelims => "attrDelims" | .attrBad => "attrBad"
+  | .descDelims => "descDelims" | .skipLevel => "skipLevel" | .crash => "crash"
+
+def flagsJson (f : Flags) : Json :=
+  jobj [("saveLib", jbool f.saveLib), ("saveBase", jbool f.saveBase), ("saveMerged", jbool f.saveMerged),
+        ("stripInLib", jbool f.stripInLib)]
+
+/-- requests `{"op":"c05.<name>", ...}` of property C05 -/
+def handle (op : String) (j : Json) : Option (Except String Json) :=
+  match op with
+  | "c05.parse" => some do
+      let s ← getStr j "s"
+      pure (match parseAttr s with
+        | .ok as => jobj [("ok", attrsJson as)]
+        | .error .malformed => jobj [("err", Json.str "malformed")]
+        | .error .flagPlusValue => jobj [("err", Json.str "crash")])
+  | "c05.format" => some do
+      let as ← attrsOf (← getVal j "attrs")
+      pure (jobj [("s", jstr (formatAttr as)), ("wf", jbool (attrsWF as)),
+                  ("back", match parseAttr (formatAttr as) with
+                    | .ok b => attrsJson b
+                    | .error _ => Json.null)])
+  | "c05.readline" => some do
+      let raw ← getStr j "raw"
+      pure (match cleanLine raw with
+        | .error e => jobj [("err", Json.str (werr e))]
+        | .ok none => jobj [("dropped", jbool true)]
+        | .ok (some row) =>
+          match readEntry row with
+          | .error e => jobj [("err", Json.str (werr e))]
+          | .ok (name, attrs, desc) =>
+            jobj [("root", jbool (quote3.isPrefixOf row)), ("level", jopt jnat (tagLevel row)),
+                  ("name", jstr name), ("attrs", attrsJson attrs), ("desc", jopt jstr desc)])
+  | "c05.writeline" => some do
+      let lv ← getNat j "level"
+      let short ← getStr j "short"
+      let as ← attrsOf (← getVal j "attrs")
+      let desc := descOf j "desc"
+      let ex := extras (formatAttr as) desc
+      let line := if getBoolD j "entry" false then entryLine lv short ex else tagLine lv short ex
+      pure (jobj [("line", jstr line), ("wf", jbool (lineWF lv short as desc)),
+                  ("trimmed", jbool (descTrimmed desc))])
+  | "c05.tags" => some do
+      let es ← (← getArr j "entries").mapM entryOf
+      let lib ← getStr j "library"
+      let ws ← getStr j "withStandard"
+      let merged ← getBool j "merged"
+      pure (match saveTags lib ws merged es with
+        | .error _ => jobj [("refuse", jbool true)]
+        | .ok out =>
+          let lines := toWikiLeveled out
+          jobj [("levels", jarr (out.map fun p => jnat p.1)),
+                ("entries", jarr (out.map fun p => entryJson p.2)),
+                ("lines", jarr (lines.map jstr)),
+                ("wf", jbool (out.all fun p => entryWF p.2 && descTrimmed p.2.desc)),
+                ("preorder", jbool (Preorder [] (out.map (·.2)))),
+                ("reread", match ofWiki lines with
+                  | .ok back => jarr (back.map entryJson)
+                  | .error e => Json.str (werr e))])
+  | "c05.flags" => some do
+      let lib ← getStr j "library"
+      let ws ← getStr j "withStandard"
+      let merged ← getBool j "merged"
+      pure (match processFlags lib ws merged with
+        | .error _ => jobj [("refuse", jbool true)]
+        | .ok f => flagsJson f)
+  | "c05.sections" => some do
+      let lib ← getStr j "library"
+      let ws ← getStr j "withStandard"
+      let merged ← getBool j "merged"
+      let secs ← (← getArr j "sections").mapM fun s => do (← asArr s).mapM entryOf
+      let ucs ← (← getArr j "unitClasses").mapM fun u => do
+        pure (← entryOf (← getVal u "entry"), ← (← getArr u "units").mapM entryOf)
+      pure (match processFlags lib ws merged with
+        | .error _ => jobj [("refuse", jbool true)]
+        | .ok f =>
+          let line (d : Nat) (e : Entry) (props : Bool) : Json :=
+            jstr (entryLine d e.name (if props then entryExtras e else []))
+          jobj [("sections", jarr (secs.map fun s =>
+                  let out := outputSection f s
+                  jobj [("entries", jarr (out.map entryJson)), ("lines", jarr (out.map fun e => line 1 e true))])),
+                ("unitClasses", jarr ((outputUnits f ucs).map fun t =>
+                  jobj [("entry", entryJson t.1), ("props", jbool t.2.1), ("units", jarr (t.2.2.map entryJson)),
+                        ("lines", jarr (line 1 t.1 t.2.1 :: t.2.2.map fun u => line 2 u true))]))])
+  | "c05.escape" => some do
+      let s ← getStr j "s"
+      pure (jobj [("esc", jstr (escapeNl s)), ("back", jstr (unescapeNl (escapeNl s)))])
+  | _ => none
 
 end HedVerif.Driver.C05
